@@ -19,7 +19,11 @@ inline void fault_line(const char* why) {
 inline void on_signal(int s) {
     fault_line(s == SIGSEGV ? "SIGSEGV" : s == SIGABRT ? "SIGABRT" : s == SIGFPE ? "SIGFPE" : s == SIGBUS ? "SIGBUS" : s == SIGALRM ? "SIGALRM(timeout)" : "signal");
 }
-inline void on_terminate() { fault_line("terminate"); }
+inline void on_terminate() {
+    static char why[120] = "terminate";
+    if (auto ep = std::current_exception()) { try { std::rethrow_exception(ep); } catch (const std::exception& e) { snprintf(why, sizeof why, "terminate: %.90s", e.what()); for (char* c = why; *c; c++) if (*c == '"' || *c == '\\' || *c == '\n') *c = ' '; } catch (...) {} }
+    fault_line(why);
+}
 inline void install_fault_handlers(unsigned alarm_s = 0) {
     std::set_terminate(on_terminate);
     for (int s : {SIGSEGV, SIGABRT, SIGFPE, SIGBUS, SIGALRM}) signal(s, on_signal);
